@@ -3,7 +3,7 @@
    the record-count check, the payload dispatch); what the Arrow IPC library answers for damaged bytes
    and whether a table decodes are universally quantified inputs.  Index arithmetic inside arrow-go on
    spliced or bit-flipped IPC bytes is outside the property's domain and outside the model. *)
-From Verif Require Import Base.ListX Stream.Consumer.
+From Verif Require Import Base.ListX Stream.Consumer Stream.Abandon.
 
 (* For every consumer state (any stream-consumer table, including entries whose reader could not be
    opened), every list of payloads (relabelled, dropped, duplicated, reordered, emptied, with unknown or
@@ -43,3 +43,12 @@ Example C07_example :
         [{| p_sid := 1; p_ty := 40; p_lib := okl; p_decodes := true |};
          {| p_sid := 9; p_ty := 41; p_lib := {| l_open_ok := false; l_next := false; l_err_ok := true |}; p_decodes := true |}]) = FErr.
 Proof. vm_compute. reflexivity. Qed.
+
+(* After a batch abandoned at some payload (memory-limit refusal, damaged payload) the sub-streams of the unread payloads have
+   missed messages.  With the failure marks of the `fix:` commit, for every history of batches and every failure pattern no
+   payload is ever decoded out of step with its sub-stream (stale dictionaries: index-out-of-range panic or wrong strings);
+   the code before the fix could (Abandon.legacy_out_of_step). *)
+Theorem C07_never_out_of_step : forall h,
+  Forall (Forall (fun o => o <> Decoded false)) (history true st0 h).
+Proof. intros h. exact (never_out_of_step h st0 in_sync_st0). Qed.
+Print Assumptions C07_never_out_of_step.
